@@ -129,7 +129,7 @@ def run(ctx):
                         "thresholds give a false-alarm probability < 2^-40 per run for a truly uniform source (Freshness.tla)",
                         "schedules/instances sampled: 2 processes x 2 handles x 2 instances per key"]
     ctx.model_check("MC_Freshness", "MC_Freshness" if ctx.thorough else "MC_Freshness_quick",
-                    workers=8 if ctx.thorough else 2, heap="4g",
+                    workers=8 if ctx.thorough else 1, heap="4g",
                     stage="M:incremental monitor = declarative property over every history of <= %d calls" % (4 if ctx.thorough else 3))
     drv = ctx.go_build("c20")
     only = None
